@@ -1,7 +1,953 @@
-//! C13 — node-level correspondence harness (stub; see /verif/AGENT_GUIDE.md).
+//! C13 — every block template handed to miners would be accepted by the node itself.
+//!
+//! A real node with the tx-pool service and the block assembler (`PNode`, own starter so that the
+//! assembler's `update_interval_millis` and the consensus limits can be chosen per case) is driven
+//! through random scenarios; three *copy nodes* without pool receive exactly the same blocks (in the
+//! same order) and act as the acceptance oracle for every template.
+//!
+//! Op lines (one world per `case`; the model answers `ok` to every scenario op and computes the
+//! answers of the view ops):
+//!   cfg <epoch_len> <w_close> <w_far> <max_block_bytes> <max_block_cycles> <max_proposals>
+//!       <max_uncles> <ba_interval_ms> <max_ancestors>                       -> ok
+//!   submit <tid> <t.i,t.i,..> <n_out> <fee>   tx `tid` spends outputs i of txs t (t=0: genesis cell i)   -> ok
+//!   wait <ms>                                                                -> ok
+//!   template                fetch a template now, seal it, have a copy node at the template's parent
+//!                           verify it (HeaderVerifier + process = full verification) -> ok
+//!   mine <sync>             the same, then the main node and the other copies process the block;
+//!                           sync=1: wait until the pool has processed the new tip     -> ok
+//!   fork <back> <extra> <nprop> <ncommit> <sync>   ChainBuilder branch from `back` blocks below the tip,
+//!                           `back+extra` blocks long, first block proposes the first nprop known txs,
+//!                           later blocks commit up to ncommit of them (those resolvable on that branch) -> ok
+//!   uncle <depth> <nprop>   a sibling of the main-chain block `depth` below the tip is processed      -> ok
+//!   select <size_limit> <cycles_limit>   atomically (under the pool read lock, `verif_read`) dump the
+//!                           PoolMap and run the real `TxSelector::txs_to_commit` with these limits; emits
+//!       pool                                                             -> ok
+//!       ent <id> <proposed> <size> <cycles> <fee> <anc_count> <anc_size> <anc_cycles> <anc_fee>
+//!           <key.fee> <key.weight> <key.anc_fee> <key.anc_weight> <tie> <parents> <children>   -> ok   (slab order)
+//!       closure <id>        -> anc=<sorted calc_ancestors> desc=<sorted calc_descendants>
+//!       hyp                 -> links=<0|1> agg=<0|1> key=<0|1>   (the theorems' hypotheses on this pool)
+//!       select <sl> <cl>    -> <ids in output order|-> size=<n> cycles=<n>
+//!     (`pool`, `ent`, `closure`, `hyp` lines are derived data: ignored when replayed, `select` regenerates them)
+//!   weight <size> <cycles>  -> get_transaction_weight
+//!
+//! Oracle (implementation alone): class `template-rejected` (copy node did not answer Ok(true)),
+//! `template-header`, `template-order` (a parent after its child), `template-unresolved` (an input that
+//! is neither live on the template's parent chain nor created earlier in the template, or spent twice),
+//! `template-size`, `template-cycles`, `template-proposals`, `template-uncles`, `template-cellbase`,
+//! `selector-dup`, `selector-ancestors`, `selector-order`, `selector-limits`, `selector-sums`.
 use crate::common::*;
+use crate::node::*;
+use ckb_app_config::{BlockAssemblerConfig, NetworkConfig, TxPoolConfig};
+use ckb_chain::ChainServiceScope;
+use ckb_chain_spec::consensus::Consensus;
+use ckb_jsonrpc_types::ScriptHashType;
+use ckb_network::{Flags, NetworkController, NetworkService, NetworkState, network::TransportType};
+use ckb_reward_calculator::RewardCalculator;
+use ckb_shared::{Shared, SharedBuilder};
+use ckb_store::ChainStore;
+use ckb_tx_pool::verif::{Status, TxSelector};
+use ckb_types::core::tx_pool::get_transaction_weight;
+use ckb_types::core::{BlockView, Capacity, TransactionView};
+use ckb_types::packed::{self, Byte32, OutPoint, ProposalShortId};
+use ckb_types::prelude::*;
+use ckb_types::h256;
+use ckb_verification::HeaderVerifier;
+use ckb_verification_traits::Verifier;
+use std::collections::{HashMap, HashSet};
+use std::path::{Path, PathBuf};
+use std::sync::Arc;
+use std::time::{Duration, Instant};
 
-pub fn run(_opts: &Opts) {
-    eprintln!("C13: harness not implemented");
-    std::process::exit(2);
+// ------------------------------------------------------------------------------------------------
+// pool node (Node::start with a configurable block-assembler interval)
+// ------------------------------------------------------------------------------------------------
+
+pub struct PNode {
+    pub shared: Shared,
+    chain: Option<ChainServiceScope>,
+    _network: NetworkController,
+}
+
+fn dummy_network(shared: &Shared, dir: &Path) -> NetworkController {
+    let config = NetworkConfig {
+        max_peers: 19,
+        max_outbound_peers: 5,
+        path: dir.join("network"),
+        ping_interval_secs: 15,
+        ping_timeout_secs: 20,
+        connect_outbound_interval_secs: 1,
+        discovery_local_address: true,
+        bootnode_mode: true,
+        reuse_port_on_linux: true,
+        ..Default::default()
+    };
+    let network_state = Arc::new(NetworkState::from_config(config).expect("Init network state failed"));
+    NetworkService::new(
+        network_state,
+        vec![],
+        vec![],
+        (shared.consensus().identify_name(), "test".to_string(), Flags::COMPATIBILITY),
+        TransportType::Tcp,
+    )
+    .start(shared.async_handle())
+    .expect("Start network service failed")
+}
+
+impl PNode {
+    pub fn start(dir: &Path, consensus: Consensus, tx_pool: TxPoolConfig, interval_ms: u64) -> PNode {
+        std::fs::create_dir_all(dir.join("header_map")).unwrap();
+        let db_config = ckb_app_config::DBConfig { path: dir.join("db"), ..Default::default() };
+        let builder = SharedBuilder::new("verif", dir, &db_config, None, runtime_handle(), consensus)
+            .unwrap_or_else(|e| panic!("SharedBuilder::new failed: {e:?}"))
+            .header_map_tmp_dir(Some(dir.join("header_map")))
+            .tx_pool_config(tx_pool);
+        let ba = BlockAssemblerConfig {
+            code_hash: h256!("0x0"),
+            args: Default::default(),
+            hash_type: ScriptHashType::Data,
+            message: Default::default(),
+            use_binary_version_as_message_prefix: false,
+            binary_version: "TEST".to_string(),
+            update_interval_millis: interval_ms,
+            notify: vec![],
+            notify_scripts: vec![],
+            notify_timeout_millis: 800,
+        };
+        let (shared, mut pack) = builder.block_assembler_config(Some(ba)).build().unwrap_or_else(|e| panic!("SharedBuilder::build failed: {e:?}"));
+        let n = dummy_network(&shared, dir);
+        pack.take_tx_pool_builder().start(n.clone());
+        let chain = ChainServiceScope::new(pack.take_chain_services_builder());
+        PNode { shared, chain: Some(chain), _network: n }
+    }
+    pub fn process(&self, block: &BlockView) -> Result<bool, String> {
+        self.chain.as_ref().unwrap().chain_controller().blocking_process_block(Arc::new(block.clone())).map_err(|e| e.to_string())
+    }
+    pub fn tip_hash(&self) -> Byte32 {
+        self.shared.snapshot().tip_hash()
+    }
+    pub fn stop(mut self) {
+        self.chain.take();
+    }
+}
+
+// ------------------------------------------------------------------------------------------------
+// world
+// ------------------------------------------------------------------------------------------------
+
+#[derive(Clone, Debug)]
+struct Cfg {
+    epoch_len: u64,
+    w_close: u64,
+    w_far: u64,
+    max_bytes: u64,
+    max_cycles: u64,
+    max_proposals: u64,
+    max_uncles: u64,
+    interval_ms: u64,
+    max_ancestors: u64,
+}
+
+struct Copy {
+    node: Node,
+    cursor: usize,
+}
+
+struct World {
+    dir: PathBuf,
+    cfg: Cfg,
+    consensus: Consensus,
+    main: PNode,
+    copies: Vec<Copy>,
+    /// every block the main node processed, in that order
+    log: Vec<BlockView>,
+    builder: ChainBuilder,
+    txs: Vec<TransactionView>,
+    tid_by_short: HashMap<ProposalShortId, usize>,
+    tid_by_hash: HashMap<Byte32, usize>,
+    gcells: Vec<(OutPoint, u64)>,
+    salt: u64,
+}
+
+fn cap_of(tx: &TransactionView, i: usize) -> u64 {
+    let c: Capacity = tx.outputs().get(i).expect("output index").capacity().unpack();
+    c.as_u64()
+}
+
+impl World {
+    fn new(base: &Path, case: u64, cfg: Cfg) -> World {
+        let dir = base.join(format!("case-{case}"));
+        let _ = std::fs::remove_dir_all(&dir);
+        std::fs::create_dir_all(&dir).unwrap();
+        let ncfg = NodeCfg { epoch_len: cfg.epoch_len, window: (cfg.w_close, cfg.w_far), genesis_cells: 24, maturity_epochs: 0, with_pool: false, tx_pool: None };
+        let mut consensus = make_consensus(&ncfg);
+        consensus.max_block_bytes = cfg.max_bytes;
+        consensus.max_block_cycles = cfg.max_cycles;
+        consensus.max_block_proposals_limit = cfg.max_proposals;
+        consensus.max_uncles_num = cfg.max_uncles as usize;
+        let mut tp = TxPoolConfig::default();
+        tp.max_ancestors_count = cfg.max_ancestors as usize;
+        let main = PNode::start(&dir.join("main"), consensus.clone(), tp, cfg.interval_ms);
+        let copies = (0..3).map(|i| Copy { node: Node::start(&dir.join(format!("copy-{i}")), consensus.clone(), &ncfg), cursor: 0 }).collect();
+        let builder = ChainBuilder::new(consensus.clone(), &dir.join("builder"));
+        let gcells = genesis_cells(&consensus);
+        World { dir, cfg, consensus, main, copies, log: vec![], builder, txs: vec![], tid_by_short: HashMap::new(), tid_by_hash: HashMap::new(), gcells, salt: 1000 }
+    }
+
+    fn finish(self) {
+        let World { dir, main, copies, builder, .. } = self;
+        drop(builder);
+        for c in copies {
+            c.node.stop();
+        }
+        main.stop();
+        let _ = std::fs::remove_dir_all(dir);
+    }
+
+    fn tpc(&self) -> &ckb_tx_pool::TxPoolController {
+        self.main.shared.tx_pool_controller()
+    }
+
+    /// wait until the pool's snapshot is at the main node's tip (reorg notification processed)
+    fn sync_pool(&self, out: &mut Out) {
+        let t = Instant::now();
+        loop {
+            let tip = self.main.tip_hash();
+            if let Ok(info) = self.tpc().get_tx_pool_info() {
+                if info.tip_hash == tip {
+                    break;
+                }
+            }
+            if t.elapsed() > Duration::from_secs(20) {
+                out.count("sync-timeout");
+                break;
+            }
+            std::thread::sleep(Duration::from_millis(2));
+        }
+        // the assembler's update_full runs right after the pool update on the same task; a
+        // synchronous request ordered after it is not available, so give it a moment
+        std::thread::sleep(Duration::from_millis(3));
+    }
+
+    /// main node processes a block; it is appended to the log the copies follow
+    fn main_process(&mut self, b: &BlockView) -> Result<bool, String> {
+        let r = self.main.process(b);
+        self.log.push(b.clone());
+        self.builder.blocks.entry(b.hash()).or_insert_with(|| b.clone());
+        r
+    }
+
+    /// a copy node whose tip is `parent` (feeding it logged blocks as far as needed), if any
+    fn copy_at(&mut self, parent: &Byte32) -> Option<usize> {
+        for i in 0..self.copies.len() {
+            loop {
+                if &self.copies[i].node.tip_hash() == parent {
+                    return Some(i);
+                }
+                let c = self.copies[i].cursor;
+                if c >= self.log.len() {
+                    break;
+                }
+                let b = self.log[c].clone();
+                let _ = self.copies[i].node.process(&b);
+                self.copies[i].cursor += 1;
+            }
+        }
+        None
+    }
+
+    fn out_point(&self, t: usize, i: usize) -> (OutPoint, u64) {
+        if t == 0 {
+            self.gcells[i].clone()
+        } else {
+            let tx = &self.txs[t - 1];
+            (OutPoint::new(tx.hash(), i as u32), cap_of(tx, i))
+        }
+    }
+
+    fn main_chain_hash_below_tip(&self, depth: u64) -> Byte32 {
+        let snap = self.main.shared.snapshot();
+        let n = snap.tip_number().saturating_sub(depth);
+        snap.get_block_hash(n).expect("main chain hash")
+    }
+}
+
+// ------------------------------------------------------------------------------------------------
+// template oracle
+// ------------------------------------------------------------------------------------------------
+
+fn check_template(w: &mut World, out: &mut Out, mine: bool) -> Option<BlockView> {
+    let tmpl = match w.tpc().get_block_template(None, None, None) {
+        Ok(Ok(t)) => t,
+        other => {
+            out.count("template-error");
+            let _ = other;
+            return None;
+        }
+    };
+    let cycles: u64 = tmpl.transactions.iter().map(|t| t.cycles.map(|c| c.value()).unwrap_or(0)).sum();
+    let block: packed::Block = tmpl.into();
+    let block = block.into_view();
+    let parent = block.parent_hash();
+    out.count("template");
+    if block.transactions().len() > 1 {
+        out.count("template-with-txs");
+    }
+    if !block.uncles().hashes().is_empty() {
+        out.count("template-with-uncles");
+    }
+    if !block.data().proposals().is_empty() {
+        out.count("template-with-proposals");
+    }
+    if parent != w.main.tip_hash() {
+        out.count("template-on-older-tip");
+    }
+    let detail = |b: &BlockView| format!("number={} txs={} proposals={} uncles={}", b.number(), b.transactions().len() - 1, b.data().proposals().len(), b.uncles().hashes().len());
+    // --- structural checks on the template itself
+    let cons = w.consensus.clone();
+    let size = block.data().serialized_size_without_uncle_proposals() as u64;
+    if size > cons.max_block_bytes {
+        out.oracle_fail("template-size", &format!("{} size={} max={}", detail(&block), size, cons.max_block_bytes));
+    }
+    if size + 400 > cons.max_block_bytes {
+        out.count("template-size-near-limit");
+    }
+    if cycles > cons.max_block_cycles {
+        out.oracle_fail("template-cycles", &format!("{} cycles={} max={}", detail(&block), cycles, cons.max_block_cycles));
+    }
+    if cycles + 600 > cons.max_block_cycles && cycles > 0 {
+        out.count("template-cycles-near-limit");
+    }
+    if block.data().proposals().len() as u64 > cons.max_block_proposals_limit {
+        out.oracle_fail("template-proposals", &detail(&block));
+    }
+    if block.uncles().hashes().len() > cons.max_uncles_num {
+        out.oracle_fail("template-uncles", &detail(&block));
+    }
+    // parents first / every input live on the parent chain or created earlier in the template, spent once
+    let ci = w.copy_at(&parent);
+    {
+        let mut created: HashMap<Byte32, usize> = HashMap::new();
+        let mut spent: HashSet<OutPoint> = HashSet::new();
+        let all: HashSet<Byte32> = block.transactions().iter().map(|t| t.hash()).collect();
+        for (pos, tx) in block.transactions().iter().enumerate().skip(1) {
+            for op in tx.input_pts_iter() {
+                if !spent.insert(op.clone()) {
+                    out.oracle_fail("template-unresolved", &format!("{} input spent twice", detail(&block)));
+                }
+                let h = op.tx_hash();
+                if created.contains_key(&h) {
+                    continue;
+                }
+                if all.contains(&h) {
+                    out.oracle_fail("template-order", &format!("{} tx at {} spends an output of a later template tx", detail(&block), pos));
+                    continue;
+                }
+                if let Some(i) = ci {
+                    if !w.copies[i].node.store().have_cell(&op) {
+                        let inpool = w.tid_by_hash.get(&h).map(|t| format!("tx{t}")).unwrap_or_else(|| "?".into());
+                        out.oracle_fail("template-unresolved", &format!("{} tx at {} has an input ({}) that is not live on the parent chain and not in the template", detail(&block), pos, inpool));
+                    }
+                }
+            }
+            created.insert(tx.hash(), pos);
+        }
+    }
+    // --- acceptance by a copy node that is exactly at the template's parent
+    match ci {
+        None => {
+            out.count("template-no-copy-at-parent");
+        }
+        Some(i) => {
+            let copy = &w.copies[i].node;
+            let snap = copy.shared.snapshot();
+            // cellbase = RewardCalculator for the parent
+            let parent_header = snap.get_block_header(&parent).expect("parent header");
+            let cb = block.transactions()[0].clone();
+            if block.number() > cons.finalization_delay_length() {
+                match RewardCalculator::new(&cons, snap.as_ref()).block_reward_to_finalize(&parent_header) {
+                    Ok((lock, reward)) => {
+                        let o = cb.outputs().get(0);
+                        let ok = match o {
+                            Some(o) => {
+                                let c: Capacity = o.capacity().unpack();
+                                c == reward.total && o.lock() == lock && cb.outputs().len() == 1
+                            }
+                            None => false,
+                        };
+                        if !ok {
+                            out.oracle_fail("template-cellbase", &detail(&block));
+                        }
+                    }
+                    Err(_) => out.count("reward-calc-error"),
+                }
+            } else if !cb.outputs().is_empty() {
+                out.oracle_fail("template-cellbase", &format!("{} output before finalization delay", detail(&block)));
+            }
+            if let Err(e) = HeaderVerifier::new(snap.as_ref(), &cons).verify(&block.header()) {
+                out.oracle_fail("template-header", &format!("{} {}", detail(&block), e));
+            }
+            let r = copy.process(&block);
+            if r != Ok(true) {
+                out.oracle_fail("template-rejected", &format!("{} -> {:?}", detail(&block), r));
+            } else {
+                out.count("template-accepted");
+            }
+            if copy.tip_hash() != block.hash() {
+                out.oracle_fail("template-rejected", &format!("{} accepted but not the copy's tip", detail(&block)));
+            }
+        }
+    }
+    let _ = mine;
+    Some(block)
+}
+
+// ------------------------------------------------------------------------------------------------
+// selector view
+// ------------------------------------------------------------------------------------------------
+
+struct SelRes {
+    dump: ckb_tx_pool::verif::PoolDump,
+    anc: HashMap<ProposalShortId, HashSet<ProposalShortId>>,
+    desc: HashMap<ProposalShortId, HashSet<ProposalShortId>>,
+    sel: Vec<(ProposalShortId, usize, u64)>,
+    size: usize,
+    cycles: u64,
+}
+
+fn list(mut v: Vec<usize>) -> String {
+    v.sort();
+    if v.is_empty() { "-".into() } else { v.iter().map(|x| x.to_string()).collect::<Vec<_>>().join(",") }
+}
+
+fn do_select(w: &mut World, out: &mut Out, sl: u64, cl: u64) {
+    let res = w.tpc().verif_read(move |pool| {
+        let pm = pool.verif_pool_map();
+        let dump = pm.verif_dump();
+        let mut anc = HashMap::new();
+        let mut desc = HashMap::new();
+        for e in &dump.entries {
+            anc.insert(e.id.clone(), pm.verif_calc_ancestors(&e.id));
+            desc.insert(e.id.clone(), pm.verif_calc_descendants(&e.id));
+        }
+        let (ents, size, cycles) = TxSelector::new(pm).txs_to_commit(sl as usize, cl);
+        let sel = ents.iter().map(|e| (e.proposal_short_id(), e.size, e.cycles)).collect();
+        SelRes { dump, anc, desc, sel, size, cycles }
+    });
+    let r = match res {
+        Ok(r) => r,
+        Err(e) => panic!("verif_read failed: {e}"),
+    };
+    let tid = |id: &ProposalShortId| -> usize { *w.tid_by_short.get(id).expect("pool tx known to the harness") };
+    let pos: HashMap<ProposalShortId, usize> = r.sel.iter().enumerate().map(|(i, (id, _, _))| (id.clone(), i)).collect();
+    out.op("pool", "ok");
+    let links: HashMap<ProposalShortId, (Vec<ProposalShortId>, Vec<ProposalShortId>)> = r.dump.links.iter().map(|(id, p, c)| (id.clone(), (p.clone(), c.clone()))).collect();
+    let by_id: HashMap<ProposalShortId, &ckb_tx_pool::verif::EntryDump> = r.dump.entries.iter().map(|e| (e.id.clone(), e)).collect();
+    let mut n_prop = 0;
+    for (slab_pos, e) in r.dump.entries.iter().enumerate() {
+        let t = &e.entry;
+        let (ps, cs) = links.get(&e.id).cloned().unwrap_or_default();
+        let tie = pos.get(&e.id).cloned().unwrap_or(1_000_000 + slab_pos);
+        if e.status == Status::Proposed {
+            n_prop += 1;
+        }
+        out.op(
+            &format!(
+                "ent {} {} {} {} {} {} {} {} {} {} {} {} {} {} {} {}",
+                tid(&e.id),
+                (e.status == Status::Proposed) as u8,
+                t.size,
+                t.cycles,
+                t.fee.as_u64(),
+                t.ancestors_count,
+                t.ancestors_size,
+                t.ancestors_cycles,
+                t.ancestors_fee.as_u64(),
+                e.score.fee.as_u64(),
+                e.score.weight,
+                e.score.ancestors_fee.as_u64(),
+                e.score.ancestors_weight,
+                tie,
+                list(ps.iter().map(&tid).collect()),
+                list(cs.iter().map(&tid).collect()),
+            ),
+            "ok",
+        );
+    }
+    // closures + hypotheses, computed from the implementation's own calc_ancestors/calc_descendants
+    let ids: HashSet<ProposalShortId> = r.dump.entries.iter().map(|e| e.id.clone()).collect();
+    let mut links_ok = true;
+    let mut agg_ok = true;
+    let mut key_ok = true;
+    for e in &r.dump.entries {
+        let a = &r.anc[&e.id];
+        let d = &r.desc[&e.id];
+        out.op(&format!("closure {}", tid(&e.id)), &format!("anc={} desc={}", list(a.iter().map(&tid).collect()), list(d.iter().map(&tid).collect())));
+        for x in a {
+            if !ids.contains(x) {
+                links_ok = false;
+                continue;
+            }
+            if !r.anc[x].iter().all(|y| a.contains(y)) {
+                links_ok = false;
+            }
+        }
+        for x in d {
+            if !ids.contains(x) || !r.anc[x].contains(&e.id) {
+                links_ok = false;
+            }
+        }
+        let t = &e.entry;
+        let sum = |f: &dyn Fn(&ckb_tx_pool::verif::EntryDump) -> u64| -> u64 { a.iter().filter_map(|x| by_id.get(x)).map(|x| f(x)).sum() };
+        if t.ancestors_count != a.len() + 1
+            || t.ancestors_size as u64 != t.size as u64 + sum(&|x| x.entry.size as u64)
+            || t.ancestors_cycles != t.cycles + sum(&|x| x.entry.cycles)
+            || t.ancestors_fee.as_u64() != t.fee.as_u64() + sum(&|x| x.entry.fee.as_u64())
+        {
+            agg_ok = false;
+        }
+        if e.score != t.as_score_key() {
+            key_ok = false;
+        }
+    }
+    out.op("hyp", &format!("links={} agg={} key={}", links_ok as u8, agg_ok as u8, key_ok as u8));
+    if !agg_ok {
+        out.count("view-aggregates-stale");
+    }
+    if !links_ok {
+        out.count("view-links-inconsistent");
+    }
+    let sel_ids: Vec<usize> = r.sel.iter().map(|(id, _, _)| tid(id)).collect();
+    let ans = format!("{} size={} cycles={}", if sel_ids.is_empty() { "-".to_string() } else { sel_ids.iter().map(|x| x.to_string()).collect::<Vec<_>>().join(",") }, r.size, r.cycles);
+    out.op(&format!("select {} {}", sl, cl), &ans);
+    out.count("select");
+    // --- oracle on the implementation's selection
+    let d = format!("limits=({sl},{cl}) pool={} proposed={} selected={:?}", r.dump.entries.len(), n_prop, sel_ids);
+    let mut seen: HashSet<ProposalShortId> = HashSet::new();
+    let mut tsize = 0u64;
+    let mut tcycles = 0u64;
+    for (id, size, cycles) in &r.sel {
+        if !seen.insert(id.clone()) {
+            out.oracle_fail("selector-dup", &d);
+        }
+        tsize += *size as u64;
+        tcycles += *cycles;
+        match by_id.get(id) {
+            Some(e) if e.status == Status::Proposed => {}
+            _ => out.oracle_fail("selector-ancestors", &format!("{d}: tx{} is not a proposed pool entry", tid(id))),
+        }
+        for a in &r.anc[id] {
+            if !seen.contains(a) {
+                out.oracle_fail("selector-ancestors", &format!("{d}: tx{} appears without/before its in-pool ancestor tx{}", tid(id), tid(a)));
+            }
+        }
+        // direct parents by the transactions' own inputs
+        let tx = &w.txs[tid(id) - 1];
+        for op in tx.input_pts_iter() {
+            let pid = ProposalShortId::from_tx_hash(&op.tx_hash());
+            if ids.contains(&pid) && !seen.contains(&pid) {
+                out.oracle_fail("selector-order", &format!("{d}: tx{} before its parent tx{}", tid(id), tid(&pid)));
+            }
+        }
+    }
+    if tsize > sl || tcycles > cl {
+        out.oracle_fail("selector-limits", &format!("{d}: total size {tsize} cycles {tcycles} hyp(agg)={}", agg_ok as u8));
+    }
+    if tsize != r.size as u64 || tcycles != r.cycles {
+        out.oracle_fail("selector-sums", &d);
+    }
+    if r.sel.len() >= 2 {
+        out.count("select-nontrivial");
+    }
+    if (r.sel.len() as usize) < n_prop {
+        out.count("select-limit-binds");
+    }
+}
+
+// ------------------------------------------------------------------------------------------------
+// executing ops
+// ------------------------------------------------------------------------------------------------
+
+fn nums(ts: &[&str]) -> Vec<u64> {
+    ts.iter().map(|t| t.parse::<u64>().unwrap_or_else(|_| panic!("bad number {t}"))).collect()
+}
+
+fn exec(w: &mut Option<World>, out: &mut Out, base: &Path, line: &str) {
+    let ts: Vec<&str> = line.split(' ').collect();
+    match ts[0] {
+        "cfg" => {
+            let n = nums(&ts[1..]);
+            assert!(n.len() == 9, "cfg arity");
+            if let Some(old) = w.take() {
+                old.finish();
+            }
+            let cfg = Cfg { epoch_len: n[0], w_close: n[1], w_far: n[2], max_bytes: n[3], max_cycles: n[4], max_proposals: n[5], max_uncles: n[6], interval_ms: n[7], max_ancestors: n[8] };
+            *w = Some(World::new(base, out.case, cfg));
+            out.op(line, "ok");
+        }
+        "pool" | "ent" | "closure" | "hyp" => { /* derived lines, regenerated by `select` */ }
+        "weight" => {
+            let n = nums(&ts[1..]);
+            out.op(line, &get_transaction_weight(n[0] as usize, n[1]).to_string());
+        }
+        _ => {
+            let w = w.as_mut().expect("cfg first");
+            match ts[0] {
+                "submit" => {
+                    let tid: usize = ts[1].parse().unwrap();
+                    assert_eq!(tid, w.txs.len() + 1, "tids are consecutive");
+                    let inputs: Vec<(OutPoint, u64)> = ts[2]
+                        .split(',')
+                        .map(|p| {
+                            let (a, b) = p.split_once('.').expect("t.i");
+                            let (t, i): (usize, usize) = (a.parse().unwrap(), b.parse().unwrap());
+                            assert!(t <= w.txs.len());
+                            w.out_point(t, i)
+                        })
+                        .collect();
+                    let n_out: usize = ts[3].parse().unwrap();
+                    let fee: u64 = ts[4].parse().unwrap();
+                    let tx = spend_tx(&inputs, n_out, fee, tid as u64);
+                    w.tid_by_short.insert(tx.proposal_short_id(), tid);
+                    w.tid_by_hash.insert(tx.hash(), tid);
+                    w.txs.push(tx.clone());
+                    match w.tpc().submit_local_tx(tx) {
+                        Ok(Ok(())) => out.count("submit-accepted"),
+                        Ok(Err(_)) => out.count("submit-rejected"),
+                        Err(_) => out.count("submit-error"),
+                    }
+                    out.op(line, "ok");
+                }
+                "wait" => {
+                    std::thread::sleep(Duration::from_millis(ts[1].parse().unwrap()));
+                    out.op(line, "ok");
+                }
+                "template" => {
+                    check_template(w, out, false);
+                    out.op(line, "ok");
+                }
+                "mine" => {
+                    let sync = ts[1] == "1";
+                    if let Some(b) = check_template(w, out, true) {
+                        if b.parent_hash() == w.main.tip_hash() {
+                            let r = w.main_process(&b);
+                            if r != Ok(true) {
+                                out.oracle_fail("template-rejected", &format!("main node: number={} -> {:?}", b.number(), r));
+                            }
+                            out.count("mined");
+                        } else {
+                            out.count("mine-skipped-stale-template");
+                        }
+                    }
+                    if sync {
+                        w.sync_pool(out);
+                    }
+                    out.op(line, "ok");
+                }
+                "fork" => {
+                    let n = nums(&ts[1..]);
+                    let (back, extra, nprop, ncommit, sync) = (n[0], n[1], n[2] as usize, n[3] as usize, n[4] == 1);
+                    do_fork(w, out, back, extra, nprop, ncommit);
+                    if sync {
+                        w.sync_pool(out);
+                    }
+                    out.op(line, "ok");
+                }
+                "uncle" => {
+                    let n = nums(&ts[1..]);
+                    let sib = w.main_chain_hash_below_tip(n[0]);
+                    let sib_block = w.builder.blocks.get(&sib).cloned();
+                    if let Some(sb) = sib_block {
+                        if sb.number() > 0 {
+                            w.salt += 1;
+                            let proposals: Vec<ProposalShortId> = w.txs.iter().rev().take(n[1] as usize).map(|t| t.proposal_short_id()).collect();
+                            let spec = BlockSpec { proposals, salt: w.salt, ..Default::default() };
+                            let u = w.builder.build(&sb.parent_hash(), &spec);
+                            let r = w.main_process(&u);
+                            if r.is_ok() {
+                                out.count("uncle-delivered");
+                            } else {
+                                out.count("uncle-rejected");
+                            }
+                            std::thread::sleep(Duration::from_millis(2));
+                        }
+                    }
+                    out.op(line, "ok");
+                }
+                "select" => {
+                    let n = nums(&ts[1..]);
+                    do_select(w, out, n[0], n[1]);
+                }
+                other => panic!("bad op {other}"),
+            }
+        }
+    }
+}
+
+fn do_fork(w: &mut World, out: &mut Out, back: u64, extra: u64, nprop: usize, ncommit: usize) {
+    let snap = w.main.shared.snapshot();
+    let tipn = snap.tip_number();
+    let back = back.min(tipn);
+    let fork_point = snap.get_block_hash(tipn - back).expect("fork point");
+    drop(snap);
+    let len = back + extra.max(1);
+    let proposals: Vec<ProposalShortId> = w.txs.iter().take(nprop.min(w.cfg.max_proposals as usize)).map(|t| t.proposal_short_id()).collect();
+    let proposed: HashSet<ProposalShortId> = proposals.iter().cloned().collect();
+    // commit candidates: resolvable on that branch at the fork point (or from earlier candidates)
+    let mut commits: Vec<TransactionView> = vec![];
+    {
+        let store = w.builder.replay_store(&fork_point);
+        let mut made: HashSet<Byte32> = HashSet::new();
+        let mut used: HashSet<OutPoint> = HashSet::new();
+        for tx in w.txs.iter() {
+            if commits.len() >= ncommit {
+                break;
+            }
+            if !proposed.contains(&tx.proposal_short_id()) || store.get_transaction_info(&tx.hash()).is_some() {
+                continue;
+            }
+            let ok = tx.input_pts_iter().all(|op| !used.contains(&op) && (made.contains(&op.tx_hash()) || store.have_cell(&op)));
+            if ok {
+                for op in tx.input_pts_iter() {
+                    used.insert(op);
+                }
+                made.insert(tx.hash());
+                commits.push(tx.clone());
+            }
+        }
+    }
+    let mut parent = fork_point;
+    let mut ci = 0;
+    for j in 1..=len {
+        w.salt += 1;
+        let mut spec = BlockSpec { salt: w.salt, ..Default::default() };
+        if j == 1 {
+            spec.proposals = proposals.clone();
+        }
+        if j >= 1 + w.cfg.w_close && j <= 1 + w.cfg.w_far {
+            let mut size_budget = w.cfg.max_bytes.saturating_sub(900);
+            while ci < commits.len() && spec.txs.len() < 2 {
+                let sz = commits[ci].data().serialized_size_in_block() as u64;
+                if sz > size_budget {
+                    break;
+                }
+                size_budget -= sz;
+                spec.txs.push(commits[ci].clone());
+                ci += 1;
+            }
+        }
+        let ncom = spec.txs.len();
+        let b = w.builder.build(&parent, &spec);
+        let r = w.main_process(&b);
+        if r.is_err() {
+            out.count("fork-block-rejected");
+            break;
+        }
+        if ncom > 0 {
+            out.count("fork-committed-txs");
+        }
+        parent = b.hash();
+    }
+    if w.main.tip_hash() == parent {
+        out.count("fork-reorg");
+    } else {
+        out.count("fork-no-reorg");
+    }
+}
+
+// ------------------------------------------------------------------------------------------------
+// generator
+// ------------------------------------------------------------------------------------------------
+
+struct Gen {
+    free: Vec<(usize, usize, u64)>,
+    spent: Vec<(usize, usize, u64)>,
+    next_tid: usize,
+    sizes: Vec<u64>,
+}
+
+const CKB: u64 = 100_000_000;
+
+fn gen_submit(g: &mut Gen, rng: &mut Rng) -> Option<String> {
+    if g.free.is_empty() {
+        return None;
+    }
+    let mode = rng.below(100);
+    let mut picks: Vec<(usize, usize, u64)> = vec![];
+    let take = |g: &mut Gen, idx: usize| -> (usize, usize, u64) {
+        let x = g.free.remove(idx);
+        g.spent.push(x);
+        x
+    };
+    if mode < 45 {
+        // deepen a chain: the most recently created output
+        let idx = g.free.len() - 1;
+        picks.push(take(g, idx));
+    } else if mode < 65 {
+        // fan-out / wide: any free output of a non-genesis tx
+        let cands: Vec<usize> = (0..g.free.len()).filter(|i| g.free[*i].0 != 0).collect();
+        let idx = if cands.is_empty() { rng.below(g.free.len() as u64) as usize } else { *rng.pick(&cands) };
+        picks.push(take(g, idx));
+    } else if mode < 80 {
+        // join (diamond): two outputs
+        let idx = rng.below(g.free.len() as u64) as usize;
+        picks.push(take(g, idx));
+        if !g.free.is_empty() {
+            let idx = g.free.len() - 1 - rng.below((g.free.len() as u64).min(4)) as usize;
+            picks.push(take(g, idx));
+        }
+    } else if mode < 94 {
+        // fresh root
+        let cands: Vec<usize> = (0..g.free.len()).filter(|i| g.free[*i].0 == 0).collect();
+        let idx = if cands.is_empty() { rng.below(g.free.len() as u64) as usize } else { *rng.pick(&cands) };
+        picks.push(take(g, idx));
+    } else {
+        // conflict: re-spend something already spent
+        if g.spent.is_empty() {
+            return None;
+        }
+        picks.push(*rng.pick(&g.spent));
+    }
+    let total: u64 = picks.iter().map(|p| p.2).sum();
+    let fee = *rng.pick(&[500u64, 1000, 1000, 2000, 2000, 5000, 10_000, 100_000, 1_000_000]);
+    let mut n_out = 1 + rng.below(3) as usize;
+    while n_out > 1 && total < n_out as u64 * 150 * CKB + fee {
+        n_out -= 1;
+    }
+    if total < 150 * CKB + fee {
+        return None;
+    }
+    let tid = g.next_tid;
+    g.next_tid += 1;
+    let each = (total - fee) / n_out as u64;
+    for i in 0..n_out {
+        g.free.push((tid, i, each));
+    }
+    let ins = picks.iter().map(|p| format!("{}.{}", p.0, p.1)).collect::<Vec<_>>().join(",");
+    Some(format!("submit {} {} {} {}", tid, ins, n_out, fee))
+}
+
+fn gen_case(out: &mut Out, base: &Path, rng: &mut Rng, steps: u64) {
+    // limits that bind: a block holds ~2..8 always-success txs
+    let tight = rng.chance(3, 4);
+    let max_bytes = if tight { rng.range(1400, 3600) } else { 597_000 };
+    let max_cycles = if tight && rng.chance(1, 2) { 537 * rng.range(2, 8) + rng.below(3) * 100 } else { 3_500_000_000 };
+    let w_close = rng.range(1, 2);
+    let w_far = w_close + rng.range(1, 4);
+    let cfgl = format!(
+        "cfg {} {} {} {} {} {} {} {} {}",
+        rng.range(4, 9),
+        w_close,
+        w_far,
+        max_bytes,
+        max_cycles,
+        *rng.pick(&[2u64, 4, 8, 1500]),
+        rng.range(0, 2),
+        *rng.pick(&[0u64, 0, 5, 20]),
+        *rng.pick(&[3u64, 6, 25, 25])
+    );
+    out.begin_case(&format!("bytes={max_bytes} cycles={max_cycles}"));
+    let mut w: Option<World> = None;
+    exec(&mut w, out, base, &cfgl);
+    let mut g = Gen { free: (0..24).map(|i| (0usize, i, 50_000 * CKB)).collect(), spent: vec![], next_tid: 1, sizes: vec![] };
+    let interval = w.as_ref().unwrap().cfg.interval_ms;
+    let mut fp = String::new();
+    for _ in 0..steps {
+        let r = rng.below(100);
+        let line = if r < 40 {
+            match gen_submit(&mut g, rng) {
+                Some(l) => l,
+                None => continue,
+            }
+        } else if r < 58 {
+            format!("mine {}", if rng.chance(4, 5) { 1 } else { 0 })
+        } else if r < 66 {
+            "template".to_string()
+        } else if r < 72 {
+            format!("wait {}", if interval > 0 { interval + 3 } else { 2 })
+        } else if r < 79 {
+            format!("uncle {} {}", rng.below(2), rng.below(3))
+        } else if r < 86 {
+            let back = rng.range(1, 4);
+            format!("fork {} {} {} {} {}", back, rng.range(1, 2), rng.below(12), rng.below(5), if rng.chance(4, 5) { 1 } else { 0 })
+        } else {
+            // limits for the selector probe: boundaries of what is in the pool
+            let sl = match rng.below(6) {
+                0 => 1_000_000,
+                1 => *g.sizes.last().unwrap_or(&300),
+                2 => g.sizes.iter().rev().take(2).sum::<u64>(),
+                3 => g.sizes.iter().rev().take(3).sum::<u64>().saturating_sub(1),
+                4 => g.sizes.iter().rev().take(5).sum::<u64>(),
+                _ => rng.range(100, 2500),
+            };
+            let cl = match rng.below(4) {
+                0 => 537 * rng.range(1, 6),
+                1 => 537 * rng.range(1, 6) - 1,
+                _ => 3_500_000_000,
+            };
+            format!("select {} {}", sl, cl)
+        };
+        fp.push(line.as_bytes()[0] as char);
+        exec(&mut w, out, base, &line);
+        if line.starts_with("submit") {
+            if let Some(world) = w.as_ref() {
+                if let Some(tx) = world.txs.last() {
+                    g.sizes.push(tx.data().serialized_size_in_block() as u64);
+                }
+            }
+        }
+    }
+    // always end with a probe and a template
+    exec(&mut w, out, base, "select 1000000 3500000000");
+    exec(&mut w, out, base, "mine 1");
+    out.nontrivial(fp);
+    if let Some(world) = w.take() {
+        world.finish();
+    }
+}
+
+pub fn run(opts: &Opts) {
+    let base = scratch_dir(&opts.out, "c13");
+    let mut out = Out::new(&opts.out);
+    let mut rng = Rng::new(opts.seed ^ 0xC13);
+    if let Some(p) = &opts.replay {
+        let ops = read_replay_ops(p);
+        let mut w: Option<World> = None;
+        for l in ops {
+            if l.starts_with("case ") {
+                out.begin_case(l.splitn(3, ' ').nth(2).unwrap_or("replay"));
+                continue;
+            }
+            if out.case == 0 {
+                out.begin_case("replay");
+            }
+            exec(&mut w, &mut out, &base, &l);
+        }
+        if let Some(world) = w.take() {
+            world.finish();
+        }
+    } else {
+        // pure function: get_transaction_weight on boundary-ish values
+        out.begin_case("weight");
+        for _ in 0..400 {
+            let size = match rng.below(3) { 0 => rng.below(2000), 1 => rng.below(600_000), _ => 0 };
+            let cycles = match rng.below(5) {
+                0 => rng.below(10_000_000),
+                1 => rng.below(70_000_000_000),
+                2 => 5863 * rng.below(1000) + rng.below(3),
+                3 => u64::MAX - rng.below(1000),
+                _ => rng.next(),
+            };
+            let l = format!("weight {} {}", size, cycles);
+            exec(&mut None, &mut out, &base, &l);
+        }
+        let cases = if opts.thorough() { 120 } else { 14 } * opts.scale;
+        for _ in 0..cases {
+            let steps = rng.range(40, 90);
+            gen_case(&mut out, &base, &mut rng, steps);
+        }
+    }
+    let _ = std::fs::remove_dir_all(&base);
+    out.finish("a case is non-trivial by its op-kind sequence (distinct sequences of submit/mine/template/wait/uncle/fork/select)");
+    // tx-pool / network services of finished cases keep background threads alive
+    std::process::exit(0);
 }
